@@ -16,4 +16,7 @@ var props = map[string]propCfg{
 	"C19": {Quick: 30000, Thorough: 400000, QuickSec: 60, ThoroughSec: 600,
 		Rule: "structure-aware fuzzing: 80% valid generated programs (with includes, definitions, blocks, layout noise) whose entries get hostile atoms spliced in (escaped parentheses followed by flag-like text, unbalanced groups, broken escapes, raw control/invalid UTF-8 bytes, brace fragments), 20% raw token soup over directive fragments; on stdin and in include files; oracle: terminates (10 s, re-run twice at 30 s), exit 0/1 or deliberate-panic exit 2, no Go runtime fault text on stderr; non-trivial = reached the clean-up passes (exit 0 with output) or contains a hostile token; distinct = stdin+files",
 		Assumptions: baseAssumptions},
+	"C03": {Quick: 1600, Thorough: 20000, QuickSec: 75, ThoroughSec: 900,
+		Rule: "generated programs rich in map-driven constructs (definitions incl. nested, several suffix-replacement pairs, include-except, flag sets, lines that more than one directive pattern can claim) x command (generate from stdin/by id, format, format --check, update, compare, and the --all forms); each case is executed k times (quick 6, thorough 16) in fresh processes on fresh copies of the same tree in different directories; stdout, exit status and the bytes of the resulting tree must be identical; non-trivial = the program has a construct processed by ranging over a Go map; distinct = mode + canonical program text. Map orders can only be sampled: an order-dependent result with per-run flip probability p is missed with probability (1-p)^(k-1) per case",
+		Assumptions: append([]string{"Go map iteration order is re-randomised per process and per range statement, so k fresh executions sample k orders"}, baseAssumptions...)},
 }
